@@ -448,12 +448,38 @@ func c13Wire(c *eng.Ctx) {
 		}
 		fields, _, _ := eng.LiteralFields(al)
 		val := fields["Value"]
-		if fr, _, isF := eng.LoadedField(eng.OriginConv(val)); isF {
-			switch fr.Name {
-			case "Value":
+		if fv, has := fields["Version"]; has {
+			fr3, _, isF3 := eng.LoadedField(fv)
+			c.Check(isF3 && fr3.Name == "Version", "R-C13-4", nfc, m.In.Pos(), "version used", "the entry's own Version", eng.ValStr(fv))
+		}
+		// the candidates: the value itself, or the leaves of the phi that merges them
+		type cand struct {
+			v     ssa.Value
+			facts []eng.Cond
+		}
+		var cands []cand
+		if ph, isPhi := eng.Origin(val).(*ssa.Phi); isPhi {
+			leaves, _ := eng.PhiLeaves(ph)
+			for _, lf := range leaves {
+				fs := append([]eng.Cond{}, facts...)
+				for _, fa := range eng.BlockFacts(lf.From) {
+					fs = append(fs, fa.Cond())
+				}
+				if ifi, isIf := lf.From.Instrs[len(lf.From.Instrs)-1].(*ssa.If); isIf {
+					fs = append(fs, eng.CondOf(ifi.Cond, lf.From.Succs[0] == lf.Phi.Block()))
+				}
+				cands = append(cands, cand{lf.Val, fs})
+			}
+		} else {
+			cands = append(cands, cand{val, facts})
+		}
+		for _, cd := range cands {
+			fr, _, isF := eng.LoadedField(eng.OriginConv(cd.v))
+			switch {
+			case isF && fr.Name == "Value":
 				// used when TextValue is empty
 				okk := false
-				for _, cond := range facts {
+				for _, cond := range cd.facts {
 					if op, x, y, isCmp := cond.Cmp(); isCmp && op == token.EQL {
 						if s, isC := eng.ConstString(y); isC && s == "" {
 							if fr2, _, isF2 := eng.LoadedField(x); isF2 && fr2.Name == "TextValue" {
@@ -462,13 +488,11 @@ func c13Wire(c *eng.Ctx) {
 						}
 					}
 				}
-				c.Check(okk, "R-C13-4", nfc, m.In.Pos(), "bytes used: Value", "the binary Value is used when TextValue is empty (identical results for every non-empty secret of a cache file)", factsStr(facts))
-				if fv, has := fields["Version"]; has {
-					fr3, _, isF3 := eng.LoadedField(fv)
-					c.Check(isF3 && fr3.Name == "Version", "R-C13-4", nfc, m.In.Pos(), "version used", "the entry's own Version", eng.ValStr(fv))
-				}
-			case "TextValue":
+				c.Check(okk, "R-C13-4", nfc, m.In.Pos(), "bytes used: Value", "the binary Value is used when TextValue is empty (identical results for every non-empty secret of a cache file)", factsStr(cd.facts))
+			case isF && fr.Name == "TextValue":
 				c.Ok("R-C13-4", nfc, m.In.Pos(), "bytes used: TextValue", "only when non-empty")
+			default:
+				c.Bad("R-C13-4", nfc, m.In.Pos(), "bytes used: "+eng.ValStr(cd.v), "the entry's Value (or its TextValue converted to bytes) exactly as decoded: the file client yields the same bytes the store serves from the same file", "the bytes pass through "+eng.ValStr(eng.OriginConv(cd.v)))
 			}
 		}
 	}
@@ -754,6 +778,20 @@ func c13Validity(c *eng.Ctx) {
 			}
 			return "the test does not always lead to return false"
 		}())
+	}
+	// validity is about shape only: an empty value is a legal secret and a
+	// document holding one must be accepted
+	nv := 0
+	eng.Instrs(f, func(in ssa.Instruction) {
+		if fa, ok := in.(*ssa.FieldAddr); ok {
+			if fr, isF := eng.FieldOfAddr(fa); isF && fr.Is("types/api", "SecretValue", "Value") {
+				nv++
+				c.Bad("R-C13-6", f, in.Pos(), eng.InstrStr(in), "the validity gate judges the shape of the document, never the secret bytes (an empty value is a value the store itself persists; rejecting it discards the whole cache at the next start)", "reads SecretValue.Value")
+			}
+		}
+	})
+	if nv == 0 {
+		c.Ok("R-C13-6", f, f.Pos(), "reads of SecretValue.Value in the validity gate", "none")
 	}
 	// `return true` only after the loop
 	for _, r := range eng.Returns(f) {
